@@ -389,7 +389,12 @@ sqfs_dir_iterator_t *tar_open_stream(sqfs_istream_t *strm,
 	/* proble if the stream is compressed */
 	ret = strm->get_buffered_data(strm, &ptr, &size,
 				      sizeof(tar_header_t));
-	if (ret != 0)
+	if (ret < 0) {
+		/* don't mistake a read error for an empty, uncompressed archive */
+		sqfs_drop(it);
+		return NULL;
+	}
+	if (ret > 0)
 		goto out_strm;
 
 	ret = tar_probe(ptr, size);
